@@ -25,13 +25,34 @@ rt/toast_tile_get_coords/shape
         result is not two finite float arrays of shape (256, 256)              {.., shapes}
 rt/toast_tile_get_coords/raises                                               {.., error}
 
+Call-order independence (one process, several requests one after the other; witness keys
+``sequence`` = [[coordsys, n, x, y], ...] executed in that order in ONE fresh interpreter, ``kind``,
+``step`` = index of the failing request, coordsys, n, x, y of that request):
+rt/call_sequence/pixel_is_deeper_tile_centre
+        the arrays returned for request ``step`` are not the centres of the documented deeper tiles
+        although the same request is fine on its own -- something is carried over from an earlier
+        call (cache keyed without the coordinate system / level / x / y, reused state)
+        {.., i, j, dist, n_bad, matches_request = index of an earlier request whose expectation the result equals, or null}
+rt/call_sequence/earlier_result_unchanged
+        arrays handed out for request ``step`` were correct when returned and are not any more
+        after the later requests of the sequence (shared / reused output buffer)   {.., i, j, dist, n_bad}
+rt/call_sequence/tile_corners
+        create_single_tile (the source of the Tile) returned other corners / orientation than the
+        documented tile for request ``step`` of the sequence                        {.., corner, dist}
+rt/call_sequence/raises                                                          {.., error}
+
 Bounds
 ------
 quick   : all tiles of levels 1..4 (340 per system) + 400 random tiles of depth 5..20 per system
           (uniform, pole-hugging, border/equator, diagonals); all 65 536 pixels of each tile
           against the model; 24 pixels per tile (4 corner pixels, 4 centre pixels, 16 random)
           against toasty's own deeper tile.
-thorough: levels 1..6 (5460 per system) + 2500 random tiles of depth 7..20 per system.
+          + call sequences: for 20 level-1/2 positions and 40 random ones (depth 3..20) the five
+          sequence kinds of ``_sequences`` (both systems consecutively in both orders, repeats,
+          two positions interleaved across systems, partner positions sharing n&x / n&y / x&y),
+          every result compared with the model, every retained result re-compared at the end.
+thorough: levels 1..6 (5460 per system) + 2500 random tiles of depth 7..20 per system;
+          call sequences for 84 level-1..3 positions and 400 random ones.
 Tolerances: positions as unit vectors, chord <= 1e-12; inside-margin >= -1e-12 rad; latitude
 range +- 1e-12 rad.
 
@@ -130,6 +151,117 @@ def _check_one(T, Pos, coordsys, n, x, y, sub_seed, extra_pix=()):
     return out
 
 
+O_SEQ_PIX = "rt/call_sequence/pixel_is_deeper_tile_centre"
+O_SEQ_KEEP = "rt/call_sequence/earlier_result_unchanged"
+O_SEQ_TILE = "rt/call_sequence/tile_corners"
+O_SEQ_RAISE = "rt/call_sequence/raises"
+
+
+def _partner(rng, p, mode):
+    """A second position related to p the way a too coarse cache key would confuse them."""
+    n, x, y = p
+    m = 1 << n
+    if mode == 0:       # same level and column
+        return [n, x, (y + rng.randrange(1, m)) % m]
+    if mode == 1:       # same level and row
+        return [n, (x + rng.randrange(1, m)) % m, y]
+    if mode == 2:       # same x, y one level deeper (other level, same indices)
+        return [n + 1, x, y]
+    if mode == 3:       # transposed indices
+        return [n, y, x] if x != y else [n, x, (y + 1) % m]
+    return _random_tile(rng, max(1, n - 1), n + 1, 0)
+
+
+def _sequences(p, q):
+    """The request sequences run for position p (and partner q); A/P = astronomical/planetary."""
+    A, P = S.COORDSYS
+    a, b, c, d = [A] + p, [P] + p, [A] + q, [P] + q
+    return [
+        ("sky_then_planet", [a, b]),
+        ("planet_then_sky", [b, a]),
+        ("repeats", [a, a, b, b, a]),
+        ("planet_repeats", [b, b, a, b]),
+        ("interleaved", [a, c, a, d, b, c, d, a]),
+        ("interleaved_planet_first", [d, b, c, b, a]),
+    ]
+
+
+def _run_sequence(T, Pos, kind, seq, models):
+    """Execute the requests of ``seq`` consecutively in this process; every answer is compared
+    with the model of ITS OWN request, and once more when the sequence is over."""
+    out = []
+    kept = []
+    seqj = [list(r) for r in seq]
+    for step, (coordsys, n, x, y) in enumerate(seq):
+        n, x, y = int(n), int(x), int(y)
+        key = (coordsys, n, x, y)
+        if key not in models:
+            q, inc = S.tile_quad(coordsys, n, x, y)
+            models[key] = (q, inc, S.quad_pixel_centres(q, inc, 8))
+        q, inc, C = models[key]
+        w0 = {"kind": kind, "sequence": seqj, "step": step, "coordsys": coordsys, "n": n, "x": x, "y": y}
+        try:
+            tile = T.create_single_tile(Pos(n=n, x=x, y=y), coordsys=T.ToastCoordinateSystem(coordsys))
+            lons, lats = T.toast_tile_get_coords(tile)
+        except Exception as e:
+            out.append((O_SEQ_RAISE, dict(w0, error=repr(e)), "request %d of the sequence raised %r" % (step, e)))
+            continue
+        cc = np.asarray(tile.corners, dtype=float).reshape(4, 2)
+        dc = S.chord(S.ll2v(cc[:, 0], cc[:, 1]), q)
+        if not np.all(dc <= TOL) or bool(tile.increasing) != bool(inc):
+            k = int(np.argmax(np.where(np.isnan(dc), np.inf, dc)))
+            out.append((O_SEQ_TILE, dict(w0, corner=k, dist=float(dc[k]), increasing=bool(tile.increasing), expected_increasing=bool(inc)),
+                        "request %d (%s %d,%d,%d): create_single_tile corner %d is %.3g away from the documented one (orientation %r, documented %r)"
+                        % (step, coordsys, n, x, y, k, dc[k], bool(tile.increasing), bool(inc))))
+        la, lb = np.asarray(lons), np.asarray(lats)
+        if la.shape != (256, 256) or lb.shape != (256, 256):
+            out.append((O_SEQ_PIX, dict(w0, i=None, j=None, dist=None, n_bad=65536, matches_request=None, shapes=[list(la.shape), list(lb.shape)]),
+                        "request %d returned shapes %r %r" % (step, la.shape, lb.shape)))
+            continue
+        d = S.chord(S.ll2v(la, lb), C)
+        bad = ~(d <= TOL)
+        if bad.any():
+            i, j = np.unravel_index(int(np.argmax(np.where(np.isnan(d), np.inf, d))), d.shape)
+            same_as = None
+            for e in range(step):
+                ke = (seq[e][0], int(seq[e][1]), int(seq[e][2]), int(seq[e][3]))
+                if ke != key and np.all(S.chord(S.ll2v(la, lb), models[ke][2]) <= TOL):
+                    same_as = e
+                    break
+            out.append((O_SEQ_PIX, dict(w0, i=int(i), j=int(j), dist=float(d[i, j]), n_bad=int(bad.sum()), matches_request=same_as),
+                        "request %d of %r (%s tile %d,%d,%d): pixel (row %d, col %d) is %.3g away from the centre of tile (%d,%d,%d); %d of 65536 "
+                        "pixels differ%s" % (step, kind, coordsys, n, x, y, i, j, d[i, j], n + 8, 256 * x + j, 256 * y + i, int(bad.sum()),
+                                             "; the result is the answer to request %d (%s %s)" % (same_as, seq[same_as][0], seq[same_as][1:])
+                                             if same_as is not None else "")))
+        else:
+            kept.append((step, key, lons, lats))
+    for (step, key, lons, lats) in kept:
+        d = S.chord(S.ll2v(np.asarray(lons), np.asarray(lats)), models[key][2])
+        bad = ~(d <= TOL)
+        if bad.any():
+            i, j = np.unravel_index(int(np.argmax(np.where(np.isnan(d), np.inf, d))), d.shape)
+            w0 = {"kind": kind, "sequence": seqj, "step": step, "coordsys": key[0], "n": key[1], "x": key[2], "y": key[3]}
+            out.append((O_SEQ_KEEP, dict(w0, i=int(i), j=int(j), dist=float(d[i, j]), n_bad=int(bad.sum())),
+                        "the arrays returned for request %d (%s tile %d,%d,%d) were right when returned; after the later requests %d of their "
+                        "pixels changed (pixel (%d,%d) off by %.3g)" % (step, key[0], key[1], key[2], key[3], int(bad.sum()), i, j, d[i, j])))
+    return out
+
+
+def work_order(scripts):
+    """Isolated worker: scripts = [[kind, [[coordsys, n, x, y], ...]], ...], all run one after the
+    other in this one interpreter (state, if any, accumulates exactly as in a user's session)."""
+    from toasty import toast as T
+    from toasty.pyramid import Pos
+    res = []
+    n_req = 0
+    for kind, seq in scripts:
+        models = {}
+        n_req += len(seq)
+        for (obl, wit, msg) in _run_sequence(T, Pos, kind, seq, models):
+            res.append([obl, wit, msg])
+    return {"n": len(scripts), "requests": n_req, "violations": res}
+
+
 def work(coordsys, tiles, seed):
     """Isolated worker: check a list of [n, x, y]."""
     from toasty import toast as T
@@ -183,13 +315,50 @@ def run(ctx):
             jobs.append((coordsys, tiles[c::per]))
     timeout = 540 if ctx.thorough else 120
 
+    # call sequences: several requests one after the other in ONE interpreter
+    d_seq = 3 if ctx.thorough else 2
+    n_seq_rand = 400 if ctx.thorough else 40
+    seq_pos = [[n, x, y] for n in range(1, d_seq + 1) for x in range(1 << n) for y in range(1 << n)]
+    for i in range(n_seq_rand):
+        seq_pos.append(_random_tile(rng, d_seq + 1, d_max - 1, i % 4))
+    per_pos = []
+    for i, p in enumerate(seq_pos):
+        q = _partner(rng, p, i % 5)
+        per_pos.append([[kind, seq] for kind, seq in _sequences(p, q)])
+    n_seq_jobs = max(1, min(nworkers, len(per_pos) // 4))
+    seq_jobs = [[s_ for pp in per_pos[c::n_seq_jobs] for s_ in pp] for c in range(n_seq_jobs)]
+    ctx.bound("call order, one interpreter per %d positions: for %d positions (all of levels 1..%d, %d random of depth %d..%d) and a "
+              "partner position (same level & column / same level & row / same x,y one level deeper / transposed / random) the "
+              "sequences %s of (system, position) requests to create_single_tile + toast_tile_get_coords, executed consecutively; every "
+              "answer compared with the model of its own request (all 65536 pixels) and again after the sequence"
+              % (-(-len(per_pos) // n_seq_jobs), len(seq_pos), d_seq, n_seq_rand, d_seq + 1, d_max - 1,
+                 ", ".join("%s[%d]" % (k, len(q_)) for k, q_ in _sequences([1, 0, 0], [1, 0, 1]))))
+
     def do(job):
         coordsys, tiles = job
         return job, call_isolated("rt.c05", "work", {"coordsys": coordsys, "tiles": tiles, "seed": ctx.seed}, timeout, env=_ONE_THREAD)
 
+    def do_seq(scripts):
+        return scripts, call_isolated("rt.c05", "work_order", {"scripts": scripts}, timeout, env=_ONE_THREAD)
+
     counts = {}
     with ThreadPoolExecutor(max_workers=nworkers) as ex:
+        seq_futs = [ex.submit(do_seq, sj) for sj in seq_jobs]
         results = list(ex.map(do, jobs))
+        seq_results = [f.result() for f in seq_futs]
+    for scripts, (status, res, secs) in seq_results:
+        if status != "ok":
+            raise RuntimeError("C05 call-sequence worker %s after %.0fs: %r" % (status, secs, res))
+        for kind, seq in scripts:
+            ctx.case(("seq", kind, tuple(tuple(r) for r in seq)))
+        ctx.monitor("c05.sequence_requests", res["requests"])
+        for (obl, wit, msg) in res["violations"]:
+            k = counts.get(obl, 0)
+            counts[obl] = k + 1
+            if k < CAP:
+                ctx.violation(obl, wit, msg)
+        if scripts:
+            ctx.sample({"call_sequence": scripts[len(scripts) // 2], "worker_secs": round(secs, 1)})
     for (coordsys, tiles), (status, res, secs) in results:
         if status != "ok":
             raise RuntimeError("C05 worker %s after %.0fs: %r" % (status, secs, res))
@@ -208,6 +377,17 @@ def run(ctx):
 
 
 def replay(obligation, witness):
+    if "sequence" in witness:
+        status, res, secs = call_isolated("rt.c05", "work_order", {"scripts": [[witness.get("kind", "replay"), witness["sequence"]]]}, 120,
+                                          env=_ONE_THREAD)
+        if status != "ok":
+            return True, "could not replay the call sequence: %s %r" % (status, res)
+        same = [r for r in res["violations"] if r[0] == obligation]
+        if same:
+            return False, same[0][2]
+        if res["violations"]:
+            return False, "recorded obligation holds now, but: %s" % res["violations"][0][2]
+        return True, "every answer of the recorded call sequence is the documented pixel grid of its own request"
     from toasty import toast as T
     from toasty.pyramid import Pos
     extra = [(int(witness["i"]), int(witness["j"]))] if "i" in witness and "j" in witness else []
